@@ -33,8 +33,17 @@ def _kinds(v):
     return v["k"] if v["k"] != "union" else f"union{len(v['rs'])}"
 
 
+def _probe_versions(n: int) -> list[str]:
+    """Final releases realising the probes 0..2n under the PLAIN embedding (k.0 = bound k)."""
+    out = []
+    for p in range(2 * n + 1):
+        out.append(f"{(p + 1) // 2}.0" if p % 2 == 1 else f"{p // 2}.5")
+    return out
+
+
 def _replay_chunk(args):
-    vectors, n, embs, mode = args
+    vectors, n, embs, mode = args[:4]
+    with_in = len(args) > 4 and args[4]
     fails = []      # (pid, signature, detail, vector)
     done = 0
     for vec in vectors:
@@ -67,6 +76,17 @@ def _replay_chunk(args):
                 fails.append(("C01", f"C01:{site}:foreign-bound", str(e), ctx))
                 continue
             ctx["got"] = got
+            if with_in and emb["name"] == "plain":
+                # C04: membership through `in` / contains() on the result agrees with the denotation
+                dexp = spec_iface.den(exp, n)
+                try:
+                    for pnum, ver in enumerate(_probe_versions(n)):
+                        if bool(ver in r) != (pnum in dexp) or (hasattr(r, "contains") and bool(r.contains(ver)) != (pnum in dexp)):
+                            fails.append(("C04", f"C04:{site}:in-vs-exact-set",
+                                          f"{op} on {spec_iface.text_of(a, pts)!r}, {spec_iface.text_of(b, alt)!r}: `{ver} in result` is {ver in r}, exact set says {pnum in dexp}", ctx))
+                            break
+                except Exception as e:  # noqa: BLE001
+                    fails.append(("C04", f"C04:{site}:in-raises-{type(e).__name__}", repr(e), ctx))
             if spec_iface.norm_shape(got) != spec_iface.norm_shape(exp):
                 if spec_iface.den(got, n) != spec_iface.den(exp, n):
                     fails.append(("C01", f"C01:{site}:den-mismatch",
@@ -74,8 +94,32 @@ def _replay_chunk(args):
                 else:
                     fails.append(("C05", f"C05:{site}:non-canonical-shape",
                                   f"{op} result {got} denotes the right set but is not the canonical value {exp}", ctx))
-            # emptiness / universality / equality as the code reports them vs the spec's denotation
+            # second step on the REAL result object (it may carry a shape a canonical operand never has):
+            # expected sets follow from the specification's values by plain set algebra
             d = spec_iface.den(exp, n)
+            full = set(range(2 * n + 1))
+            if spec_iface.den(got, n) == d:
+                try:
+                    follow = [("not", ~r, full - d), ("and_a", r & x, d & spec_iface.den(a, n)),
+                              ("or_b", r | y, d | spec_iface.den(b, n)), ("ror_a", x | r, d | spec_iface.den(a, n))]
+                    for fname, fobj, fexp in follow:
+                        fgot = spec_iface.den(spec_iface.project(fobj, pts), n)
+                        if fgot != fexp:
+                            fails.append(("C01", f"C01:{site}>>{fname}:den-mismatch",
+                                          f"{op} result {_s(r)} then {fname} gives {_s(fobj)}: wrong set", dict(ctx, follow=fname)))
+                        elif bool(fobj.is_empty()) != (not fexp) or bool(fobj.is_any()) != (fexp == full):
+                            fails.append(("C05", f"C05:{site}>>{fname}:is_empty-is_any", f"{_s(fobj)}", dict(ctx, follow=fname)))
+                        if with_in and emb["name"] == "plain":
+                            for pnum, ver in enumerate(_probe_versions(n)):
+                                if bool(ver in fobj) != (pnum in fexp):
+                                    fails.append(("C04", f"C04:{site}>>{fname}:in-vs-exact-set",
+                                                  f"{op} then {fname}: `{ver} in {_s(fobj)}` is {ver in fobj}, exact set says {pnum in fexp}", dict(ctx, follow=fname)))
+                                    break
+                except spec_iface.ProjectionError as e:
+                    fails.append(("C01", f"C01:{site}>>follow:foreign-bound", str(e), ctx))
+                except Exception as e:  # noqa: BLE001
+                    fails.append(("C01", f"C01:{site}>>follow:raises-{type(e).__name__}", repr(e), ctx))
+            # emptiness / universality / equality as the code reports them vs the spec's denotation
             try:
                 if bool(r.is_empty()) != (len(d) == 0):
                     fails.append(("C05", f"C05:{site}:is_empty", f"is_empty()={r.is_empty()} but denotation size {len(d)}", ctx))
@@ -184,6 +228,147 @@ def _mc(rep: Report, name: str, spec: str, n: int, invs: list[str], dump: str | 
     return r
 
 
+# --------------------------------------------------------------------------- B2: behaviours of the Session machine
+def _b2_chunk(args):
+    files, n, embs = args
+    from dep_logic.specifiers import parse_version_specifier
+    fails, steps = [], 0
+    probes = _probe_versions(n)
+    for path in files:
+        beh = tla.parse_sim_file(path)
+        for emb in embs:
+            pts = emb["points"]
+
+            def mk(v):
+                return spec_iface.build(v, pts) if v["k"] == "any" else parse_version_specifier(spec_iface.text_of(v, pts))
+            try:
+                x, y = mk(beh[0]["a"]), mk(beh[0]["b"])
+            except Exception as e:  # noqa: BLE001
+                fails.append(("C17", f"C17:b2-load:raises-{type(e).__name__}", repr(e), {"file_state": beh[0]}))
+                continue
+            trail = []
+            for st in beh[1:]:
+                op = st["op"]
+                trail.append(op if op != "load" else "load " + spec_iface.text_of(st["b"], pts))
+                ctx = {"kind": "behaviour", "n": n, "emb": emb["name"], "points": pts, "init": [beh[0]["a"], beh[0]["b"]], "trail": list(trail)}
+                try:
+                    if op == "and":
+                        x = x & y
+                    elif op == "rand":
+                        x = y & x
+                    elif op == "or":
+                        x = x | y
+                    elif op == "ror":
+                        x = y | x
+                    elif op == "not":
+                        x = ~x
+                    elif op == "swap":
+                        x, y = y, x
+                    elif op == "load":
+                        y = mk(st["b"])
+                except Exception as e:  # noqa: BLE001
+                    fails.append(("C01", f"C01:b2:{op}:raises-{type(e).__name__}", repr(e), ctx))
+                    break
+                steps += 1
+                bad = False
+                for name, obj, exp in (("a", x, st["a"]), ("b", y, st["b"])):
+                    try:
+                        got = spec_iface.project(obj, pts)
+                    except spec_iface.ProjectionError as e:
+                        fails.append(("C01", f"C01:b2:{op}:foreign-bound", str(e), ctx))
+                        bad = True
+                        break
+                    dexp = spec_iface.den(exp, n)
+                    if spec_iface.norm_shape(got) != spec_iface.norm_shape(exp):
+                        if spec_iface.den(got, n) != dexp:
+                            fails.append(("C01", f"C01:b2:{op}({_kinds(exp)}):den-mismatch", f"after {trail}: register {name} is {_s(obj)}, specification has {spec_iface.text_of(exp, pts)!r}", ctx))
+                            bad = True
+                        else:       # right set, wrong shape: keep going, later steps show what it breaks
+                            fails.append(("C05", f"C05:b2:{op}({_kinds(exp)}):non-canonical-shape", f"after {trail}: register {name} is {got}, canonical value is {exp}", ctx))
+                    if emb["name"] == "plain":
+                        try:
+                            for pnum, ver in enumerate(probes):
+                                if bool(ver in obj) != (pnum in dexp):
+                                    fails.append(("C04", f"C04:b2:{op}({_kinds(exp)}):in-vs-exact-set", f"after {trail}: `{ver} in {_s(obj)}` is {ver in obj}, exact set says {pnum in dexp}", ctx))
+                                    bad = True
+                                    break
+                        except Exception as e:  # noqa: BLE001
+                            fails.append(("C04", f"C04:b2:{op}:in-raises-{type(e).__name__}", repr(e), ctx))
+                            bad = True
+                    try:
+                        if bool(obj.is_empty()) != (not dexp) or bool(obj.is_any()) != (len(dexp) == 2 * n + 1):
+                            fails.append(("C05", f"C05:b2:{op}({_kinds(exp)}):is_empty-is_any", f"after {trail}: {_s(obj)} reports is_empty={obj.is_empty()} is_any={obj.is_any()}", ctx))
+                            bad = True
+                    except Exception as e:  # noqa: BLE001
+                        fails.append(("C05", f"C05:b2:{op}:observer-raises-{type(e).__name__}", repr(e), ctx))
+                        bad = True
+                same = spec_iface.den(st["a"], n) == spec_iface.den(st["b"], n)
+                try:
+                    e1, e2 = bool(x == y), bool(y == x)
+                    if e1 != e2:
+                        fails.append(("C13", f"C13:b2:{op}:eq-asymmetric", f"after {trail}", ctx))
+                    elif e1 != same and not bad:
+                        fails.append(("C05", f"C05:b2:{op}:eq-vs-den", f"after {trail}: == is {e1}, same set is {same}", ctx))
+                    if e1 and hash(x) != hash(y):
+                        fails.append(("C13", f"C13:b2:eq-hash({_kinds(st['a'])},{_kinds(st['b'])})", f"after {trail}: equal registers hash differently", ctx))
+                except Exception as e:  # noqa: BLE001
+                    fails.append(("C13", f"C13:b2:{op}:eq-raises-{type(e).__name__}", repr(e), ctx))
+                if bad:
+                    break       # later steps would only repeat the divergence
+    return steps, fails
+
+
+def b2_behaviours(rep: Report, n: int, num: int, depth: int) -> None:
+    """B2: TLC -simulate behaviours of the Session machine, stepped through real objects."""
+    tmp = tempfile.mkdtemp(prefix="verif_b2_")
+    try:
+        cfg = os.path.join(tmp, "s.cfg")
+        open(cfg, "w").write(f"SPECIFICATION SessSpec\nCONSTANT N = {n}\nINVARIANT SessDenExact\nINVARIANT SessCanonical\nCHECK_DEADLOCK FALSE\n")
+        os.makedirs(os.path.join(tmp, "sim"))
+        r = tla.run_tlc("IntervalAlgebra.tla", cfg, workers=1, timeout=900,
+                        args=["-simulate", f"file={tmp}/sim/tr,num={num}", "-depth", str(depth), "-seed", str(rep.seed + 11)])
+        if r.violated:
+            rep.violation(f"{rep.pid}:spec:Session-simulate:{r.violated}", "TLC simulation violated an invariant", {"tlc_tail": r.out[-1500:]})
+        files = sorted(os.path.join(tmp, "sim", f) for f in os.listdir(os.path.join(tmp, "sim")))
+        if not files:
+            raise tla.MachineryError("TLC -simulate wrote no behaviour files: " + r.out[-800:])
+        embs = [e for e in spec_iface.embeddings(n, rep.seed, 1) if e["name"] in ("plain", "dense", "random0")]
+        steps = 0
+        for done, fails in _pool_map(_b2_chunk, [(ch, n, embs) for ch in _chunks(files, 32)]):
+            steps += done
+            for (p, sig, detail, vec) in fails:
+                if p == rep.pid:
+                    rep.violation(sig, detail, vec)
+        rep.add("traces_validated_against_impl", len(files) * len(embs))
+        rep.count("b2_behaviours", len(files))
+        rep.count("b2_steps_replayed", steps)
+        rep.sample({"binding": "B2", "behaviour": [st["op"] for st in tla.parse_sim_file(files[0])]})
+    finally:
+        import shutil
+        shutil.rmtree(tmp, ignore_errors=True)
+
+
+def pairs_membership(rep: Report, n: int) -> None:
+    """C04 on the algebra: every Pairs transition replayed with membership through `in`/contains()."""
+    tmp = tempfile.mkdtemp(prefix="verif_ia_")
+    try:
+        dump = os.path.join(tmp, "pairs")
+        _mc(rep, "Pairs", "PairsSpec", n, ["DenExact"], dump=dump)
+        vectors = [st for st in tla.load_dump(dump + ".dump") if st["op"] != "init"]
+    finally:
+        import shutil
+        shutil.rmtree(tmp, ignore_errors=True)
+    embs = [e for e in spec_iface.embeddings(n, rep.seed, 0) if e["name"] == "plain"]
+    total = 0
+    for done, fails in _pool_map(_replay_chunk, [(ch, n, embs, "ctor", True) for ch in _chunks(vectors, 64)]):
+        total += done
+        for (p, sig, detail, vec) in fails:
+            if p == rep.pid:
+                rep.violation(sig, detail, {"kind": "pairs", "n": n, **vec})
+    rep.add("traces_validated_against_impl", total)
+    rep.count("b1_pair_vectors_with_membership", len(vectors))
+
+
 def run(pid: str, tier: str, replay: str | None = None) -> int:
     assert pid in PROPS
     rep = Report(pid, tier, "model_checking")
@@ -231,6 +416,8 @@ def run(pid: str, tier: str, replay: str | None = None) -> int:
 
         # ----------------------------------------------------------- MC: Session reachability
         _mc(rep, "Session", "SessSpec", 3 if thorough else 2, SESS_INVS[pid])
+        # ----------------------------------------------------------- B2: simulated behaviours on real objects
+        b2_behaviours(rep, 3, num=(6000 if thorough else 600), depth=(16 if thorough else 12))
 
         # ----------------------------------------------------------- MC + B1: Laws (C14, C13)
         if pid in ("C14", "C13"):
@@ -385,6 +572,14 @@ def classify_session_reject(pid: str, clause: str, s: dict, l: int) -> str:
     extra = ""
     if ev["exc"]:
         extra = ":" + ev["exc"]
+    if pid == "C06" and ev["op"] == "reparse" and ev["text"].startswith("~=") and not ev["exc"]:
+        # which bound shape makes the ~= rendering lossy?
+        from packaging.version import Version
+        src = s["events"][ev["a"] - 1]["shape"]
+        if src["k"] == "range" and src["rs"][0]["hi"]:
+            hi = Version(s["points"][src["rs"][0]["hi"] - 1])
+            if hi.is_postrelease and not hi.is_prerelease:
+                return "C06:str(range):~=:upper-bound-post-release"
     return f"{pid}:{site}:{clause}{extra}"
 
 
